@@ -165,6 +165,31 @@ def run(rep: Report) -> None:
                 if isinstance(r, ast.Return) and isinstance(r.value, ast.Call) and isinstance(r.value.func, ast.Attribute) \
                         and r.value.func.attr == "__from_json__":
                     dispatch[tag] = ast.unparse(r.value.func.value)
+    # table-driven form: for tag, cls in <literal pairs>: if type_name == tag: return cls.__from_json__(o)
+    jmi = prog.module("json")
+    for n in ast.walk(hook.node):
+        if not (isinstance(n, ast.For) and isinstance(n.target, ast.Tuple) and len(n.target.elts) == 2 and all(isinstance(x, ast.Name) for x in n.target.elts)):
+            continue
+        tvar, cvar = (x.id for x in n.target.elts)  # type: ignore[attr-defined]
+        it = n.iter
+        if isinstance(it, ast.Call) and isinstance(it.func, ast.Attribute) and it.func.attr == "items":
+            it = it.func.value
+        if isinstance(it, ast.Name):
+            sts = jmi.globals_assigned.get(it.id) or []
+            it = getattr(sts[0], "value", None) if len(sts) == 1 else None
+        pairs: List[Tuple[Any, str]] = []
+        if isinstance(it, (ast.Tuple, ast.List)):
+            pairs = [(e.elts[0].value, ast.unparse(e.elts[1])) for e in it.elts
+                     if isinstance(e, (ast.Tuple, ast.List)) and len(e.elts) == 2 and isinstance(e.elts[0], ast.Constant)]
+        elif isinstance(it, ast.Dict):
+            pairs = [(k.value, ast.unparse(v)) for k, v in zip(it.keys, it.values) if isinstance(k, ast.Constant)]
+        compares = any(isinstance(c, ast.Compare) and len(c.ops) == 1 and isinstance(c.ops[0], ast.Eq)
+                       and tvar in {x.id for x in ast.walk(c) if isinstance(x, ast.Name)} for c in ast.walk(n))
+        calls = any(isinstance(c, ast.Call) and isinstance(c.func, ast.Attribute) and c.func.attr == "__from_json__"
+                    and isinstance(c.func.value, ast.Name) and c.func.value.id == cvar for c in ast.walk(n))
+        if pairs and compares and calls:
+            for tag, cls_ in pairs:
+                dispatch.setdefault(tag, cls_)
     for cls in CODEC_CLASSES:
         w = prog.func(f"{cls}.__json__")
         rd = prog.func(f"{cls}.__from_json__")
@@ -231,8 +256,12 @@ def run(rep: Report) -> None:
         rep.check("R15.4", f"{q}:unit-text", bool(texts) and not other,
                   f"{q} stores the unit as {other or 'something other than str(self.unit)'}: the reader (Unit.parse) reads the str() format", fi.where())
     qi = prog.func("Quantity.__init__")
-    rep.check("R15.4", "Quantity.__init__:reader", "Unit.parse(unit)" in ast.unparse(qi.node).replace(" ", ""),
-              "Quantity.__init__ no longer parses a string unit with Unit.parse", qi.where())
+    reads = {t for cs in resolver.callsites(qi.qual) for t in cs.targets}
+    for t in list(reads):
+        if t in prog.functions and prog.functions[t].module == "" and prog.functions[t].cls is None:
+            reads |= {t2 for cs in resolver.callsites(t) for t2 in cs.targets}   # a one-step helper such as _as_unit
+    rep.check("R15.4", "Quantity.__init__:reader", "Unit.parse" in reads,
+              "Quantity.__init__ no longer reads a unit text with Unit.parse: the stored str(unit) has no reader", qi.where())
     ev = evaluate()
     sh = extract_shipped()
     tables = normalise(sh.data, sh.memo)
